@@ -12,6 +12,7 @@ from ..common import Suite, Finding, Reader, lean_batch
 from ..probes import patched_clock, quiet, scratch
 from .c01 import make_mass, _hm
 
+THOROUGH_ROUNDS = 1  # the thorough tier of this property is one long run (soak / exhaustive enumeration)
 TRUSTED_EXTRA = ["C08: faults are injected at call boundaries (entry of misfit/gradient/corrector/generate_momentum/kinetic_energy/"
                  "kinetic_energy_gradient, entry and exit of the store's append); asynchronous signals between byte codes and faults inside h5py are outside the model"]
 ASSUMPTIONS = ["the fault-free chain is a function of seed and configuration only (C09), so the reference run supplies the columns `col i`"]
